@@ -113,7 +113,8 @@ def R2_one_delta(run):
                         "next_reward_growths_inside", "calculate_modify_tick_array"):
                 run.check("R2", "argnames:%s@%s:l%d" % (last, short, t["l"] - fn.line), not mm, "%s in %s: %s" % (last, path, "; ".join(mm)), loc=fn.loc(t["l"]),
                           detail="argument names agree with %s's parameters" % last)
-            if last == "next_whirlpool_liquidity":
+            if last == "add_liquidity_delta" and arg_name(args[0]) == "liquidity" and mentions(args[0], lambda s_: s_[0] == "param" and s_[1] == "whirlpool"):
+                # the pool's own update (next_whirlpool_liquidity is read spliced in; its range test is decided by R4)
                 found["pool"] = args
             elif last == "next_tick_modify_liquidity_update":
                 is_upper = const_val(args[7])
@@ -125,17 +126,13 @@ def R2_one_delta(run):
                   detail="pool, lower (is_upper=false), upper (is_upper=true), position")
         if not ok:
             continue
-        d = [found["pool"][3], found["lower"][6], found["upper"][6], found["position"][1]]
+        d = [found["pool"][1], found["lower"][6], found["upper"][6], found["position"][1]]
         run.check("R2", "same-delta@" + short, all(is_param(x, "liquidity_delta") for x in d), "the four updates do not all receive liquidity_delta: %s" % [sh(x, 40) for x in d],
                   loc=fn.loc(), detail="liquidity_delta x4")
         lo, up = found["lower"], found["upper"]
         ok = is_param(lo[0], "tick_lower") and is_param(lo[1], "tick_lower_index") and is_param(up[0], "tick_upper") and is_param(up[1], "tick_upper_index")
         run.check("R2", "tick-sides@" + short, ok, "lower/upper tick updates are not given (tick_lower, tick_lower_index) / (tick_upper, tick_upper_index): %s / %s" % (
             [sh(x, 30) for x in lo[:2]], [sh(x, 30) for x in up[:2]]), loc=fn.loc(), detail="lower: (tick_lower, tick_lower_index, false); upper: (tick_upper, tick_upper_index, true)")
-        pool = found["pool"]
-        ok = arg_name(pool[1]) == "tick_upper_index" and arg_name(pool[2]) == "tick_lower_index"
-        run.check("R2", "pool-bounds@" + short, ok, "next_whirlpool_liquidity is given bounds (%s, %s), expected the position's (upper, lower)" % (sh(pool[1], 40), sh(pool[2], 40)),
-                  loc=fn.loc(), detail="(position.tick_upper_index, position.tick_lower_index)")
 
 
 def R3_tick_polarity(run):
@@ -203,42 +200,54 @@ def R3_tick_polarity(run):
         run.check("R3", "gross-zero-deinit[%s]" % short, zero_gross, "%s: gross == 0 does not return the default (uninitialised) update" % path, loc=fn.loc(), detail="gross == 0 => TickUpdate::default()")
 
 
+def _result_field(fn, pv, name):
+    """Values of field `name` of the ModifyLiquidityUpdate-like aggregate(s) the function returns."""
+    out = []
+    for bi, bb in enumerate(fn.blocks):
+        if bb["t"]["k"] == "ret":
+            for l in leaves(pv.local(0, bi, len(bb["s"]))):
+                for s_ in subterms(l):
+                    if s_[0] == "agg" and name in dict(s_[3]):
+                        out.append(dict(s_[3])[name])
+    return out
+
+
 def R4_in_range(run):
-    run.title("R4", "next_whirlpool_liquidity (both): pool liquidity changes iff tick_current_index < upper && tick_current_index >= lower, by add_liquidity_delta(liquidity, delta)")
+    run.title("R4", "the pool's liquidity in _calculate_modify_liquidity (both; next_whirlpool_liquidity read spliced in): it changes iff the position's "
+                    "tick_lower_index <= tick_current_index < tick_upper_index, by add_liquidity_delta(whirlpool.liquidity, delta)")
     facts = run.facts
-    for path in ("manager::whirlpool_manager::next_whirlpool_liquidity", PM + "pino_next_whirlpool_liquidity"):
+    for path, short in (("manager::liquidity_manager::_calculate_modify_liquidity", "next_whirlpool_liquidity"), (PM + "_pino_calculate_modify_liquidity", "pino_next_whirlpool_liquidity")):
         fn = facts.need_fn(path)
         run.touch(fn)
-        short = path.rsplit("::", 1)[-1]
         conds = set()
-        in_call = calls_to(fn, ends("add_liquidity_delta"))
+        in_call = [c_ for c_ in calls_to(fn, ends("add_liquidity_delta")) if arg_name(c_[2][0]) == "liquidity" and mentions(c_[2][0], lambda s_: s_[0] == "param" and s_[1] == "whirlpool")]
         for at in A.atoms(fn):
             c = at.cond()
             if c is None:
                 continue
             op, a, b = c
             for (o, x, y) in ((op, a, b), (A.SWAP[op], b, a)):
-                if arg_name(x) == "tick_current_index" and strip(y)[0] == "param":
-                    # which side leads to the add call
-                    for side, tgts in (("T", at.true_targets), ("F", at.false_targets)):
-                        r = cfg.reach(fn, tgts[0])
-                        if in_call and in_call[0][0] in r:
-                            oo = o if side == "T" else A.NEG[o]
-                            conds.add("current %s %s" % (oo, strip(y)[1]))
+                if arg_name(x) == "tick_current_index" and arg_name(y) in ("tick_upper_index", "tick_lower_index") and mentions(y, lambda s_: s_[0] == "param" and s_[1] == "position"):
+                    # which side leads to the add call (and only that side)
+                    tr_ = cfg.reach(fn, at.true_targets[0], cut_blocks=[at.block])
+                    fr_ = cfg.reach(fn, at.false_targets[0], cut_blocks=[at.block])
+                    if in_call and (in_call[0][0] in tr_) != (in_call[0][0] in fr_):
+                        oo = o if in_call[0][0] in tr_ else A.NEG[o]
+                        conds.add("current %s %s" % (oo, arg_name(y)))
         want = {"current Lt tick_upper_index", "current Ge tick_lower_index"}
         run.check("R4", "range-test@" + short, conds == want, "%s adds the delta when %s, expected exactly %s" % (path, sorted(conds), sorted(want)), loc=fn.loc(),
                   detail="lower <= current < upper")
         ok = len(in_call) == 1 and arg_name(in_call[0][2][0]) == "liquidity" and is_param(in_call[0][2][1], "liquidity_delta")
         run.check("R4", "in-range-value@" + short, ok, "%s: in-range result is not add_liquidity_delta(whirlpool.liquidity, liquidity_delta)" % path, loc=fn.loc(),
                   detail="add_liquidity_delta(whirlpool.liquidity, delta)")
+        # the value handed on as the pool's next liquidity: the in-range sum or, out of range, the unchanged pool liquidity
         pv = prov_of(fn)
-        rets = []
-        for bi, bb in enumerate(fn.blocks):
-            if bb["t"]["k"] == "ret":
-                rets = leaves(pv.local(0, bi, len(bb["s"])))
-        other = [r for r in rets if not mentions(r, lambda s: s[0] == "call" and s[1].endswith("add_liquidity_delta"))]
-        ok = len(other) == 1 and mentions(other[0], lambda s: (s[0] == "field" and s[2] == "liquidity") or (s[0] == "call" and s[1].endswith("::liquidity")))
-        run.check("R4", "out-of-range-value@" + short, ok, "%s: out-of-range result is not the unchanged pool liquidity" % path, loc=fn.loc(), detail="Ok(whirlpool.liquidity)")
+        nxt = []
+        for r_ in _result_field(fn, pv, "whirlpool_liquidity"):
+            nxt.extend(leaves(r_))
+        other = [r for r in nxt if not mentions(r, lambda s: s[0] == "call" and s[1].endswith("add_liquidity_delta"))]
+        ok = len(nxt) >= 2 and len(other) == 1 and arg_name(other[0]) == "liquidity" and mentions(other[0], lambda s: s[0] == "param" and s[1] == "whirlpool")
+        run.check("R4", "out-of-range-value@" + short, ok, "%s: out-of-range result is not the unchanged pool liquidity (%s)" % (path, [sh(x, 40) for x in nxt]), loc=fn.loc(), detail="whirlpool.liquidity unchanged")
 
 
 def R5_crossing(run):
